@@ -1,4 +1,5 @@
 import Taskpool.Inv.Count
+import Taskpool.Props.C02
 /-! # C01 — Pool size is never exceeded
 
 Only property theorems, their non-vacuity examples and refutation witnesses live in `Props/`. -/
@@ -39,6 +40,19 @@ theorem C01_unbounded_never_full (base : Nat) (h : History) (hn : h.NoSetSize)
     (hsz : c.size0 = .inf) : p.isFull = false ∧ p.sem.waiters = [] := by
   obtain ⟨hv, hw⟩ := (goodInf base h hn i c p hc hp hsz).slot
   exact ⟨by simp [Pool.isFull, Sem.locked, hv, hw, Cap.isZero], hw⟩
+
+/-- **C01 (`is_full`, one direction).** Whenever as many tasks count as running as the pool has slots, `is_full` is
+true (nothing `lost`, DESIGN §4.3 — discharged by `C03_never_lost` for histories without background calls). The
+converse — a pool below capacity at an idle point is not full — needs the semaphore's no-lost-wake-up invariant and
+is checked as a monitor on the real code (`is_full-at-idle`). -/
+theorem C01_full_at_capacity (base : Nat) (h : History) (hn : h.NoSetSize)
+    (i : Nat) (c : Cfg) (p : Pool) (n : Nat)
+    (hc : ((World.init base).run h).cfgs[i]? = some c) (hp : ((World.init base).run h).pools[i]? = some p)
+    (hsz : c.size0 = .fin n) (hl : p.lost = false) (hfull : p.running.length = n) : p.isFull = true := by
+  obtain ⟨v, hv, hs⟩ := C02_idle_accounting base h hn i c p n hc hp hsz hl
+  have : v = 0 := by omega
+  subst this
+  simp [Pool.isFull, Sem.locked, hv, Cap.isZero]
 
 /-- size 0: nothing may ever start -/
 theorem C01_zero_starts_nothing (base : Nat) (h : History) (hn : h.NoSetSize) (i : Nat) (c : Cfg) (p : Pool)
